@@ -275,6 +275,8 @@ func Execute(w *World, tape *simrt.Tape, gold []*Golden, onFatal func(int, strin
 		"once-contended":          res.Stats.OnceContend,
 		"rwlock-blocked":          res.Stats.WriterBlock,
 		"blocked":                 res.Stats.Blocks,
+		"library-spawned-tasks":   res.Stats.Spawned,
+		"channel-operations":      res.Stats.ChanOps,
 	}
 	return res
 }
